@@ -293,7 +293,15 @@ fn run_model<K: TestKey>(p: &Params, case: u64, rep: &mut Report) {
     let sync = !rng.chance(1, 4);
     let gcfg = gen_cfg(&p.focus, &mut rng, p.tier_thorough);
     let mut g: Gen<K> = Gen::new(&mut rng, gcfg);
-    let steps = rng.range(15, if p.tier_thorough { 70 } else { 45 }) as usize;
+    let mut steps = rng.range(15, if p.tier_thorough { 70 } else { 45 }) as usize;
+    if p.tier_thorough && case % 101 == 100 {
+        // the "large files" regime: one 12 MiB content, few keys, short history
+        g.contents[0] = cassadilia_verif::ops::Content::new(77, 12 << 20);
+        g.keys.truncate(2);
+        g.extra.truncate(1);
+        steps = 8;
+        rep.count("histories_with_12MiB_blob", 1);
+    }
     let root = fsx::fresh_path("seq");
     let cfg = config(n_ops, sync, false, true, true);
     let mut history: Vec<Op<K>> = Vec::new();
@@ -658,8 +666,14 @@ fn run_gate<K: TestKey>(p: &Params, case: u64, rep: &mut Report) {
     let n_create = *rng.pick(sizes);
     let mut g: Gen<K> = Gen::new(&mut rng, GenCfg { n_keys: 4, n_contents: 4, ..Default::default() });
     let root = fsx::fresh_path("gate");
-    let header = format!("# gate keytype={} n_create={n_create}\n", K::NAME);
-    let cfg = config(n_create, true, false, true, true);
+    // rarely (thorough only): create WITH the pre-created tree of 65 536 directories, so that the
+    // remembered choice is exercised in both directions
+    let pre_at_creation = p.tier_thorough && case % 2000 == 1999;
+    if pre_at_creation {
+        rep.count("created_with_precreated_tree", 1);
+    }
+    let header = format!("# gate keytype={} n_create={n_create} pre_create_at_creation={pre_at_creation}\n", K::NAME);
+    let cfg = config(n_create, true, pre_at_creation, true, true);
     let mut findings: Vec<Finding> = Vec::new();
     let mut history: Vec<Op<K>> = Vec::new();
     let mut log: Vec<String> = Vec::new();
